@@ -43,6 +43,10 @@ Clause(c) ==
       [] c = "nil-last"   -> Count("nil", R.cblog) >= 1 => R.cblog[Len(R.cblog)] = "nil"
       [] c = "failed-sub" -> R.failed => (~R.published /\ R.cblog = <<"nil">>)
       [] c = "released"   -> R.expired => R.exited
+      \* observed well inside the configured duration: the query event is active - its requests are answered,
+      \* the callback has not been called with nil, the listener is there
+      [] c = "active"     -> /\ Count("nil", R.cblog) = 0 /\ ~R.exited
+                             /\ \A k \in 1..Len(R.replies) : R.replies[k][2] = 1
       [] c = "serialized" -> ~R.overlap     \* no query callback ran while another callback of the resource's group was inside
       [] OTHER -> FALSE
 Clauses == {"serialized", "one-reply", "content", "callback-per-request", "nil-once", "nil-at-most-once", "nil-last", "failed-sub", "released"}
